@@ -774,7 +774,7 @@ def oracle_fsim4(r):
     return _labels2q(info, gate=g["t"], how=how)
 
 
-CZ_EXPS = [0.0, 1.0, 0.5, -0.5, 2.0, 1.5, 0.25, -1.0, 0.1, 1.9, 1e-7, 1.0 + 1e-7]
+CZ_EXPS = [0.0, 1.0, 0.5, -0.5, 2.0, 1.5, 0.25, -1.0, 0.1, 1.9, 1e-7, 1.0 + 1e-7, -1.5, 3.0, -2.0, -3.0, 1.0 - 1e-9, -1.0 + 1e-9, 2.0 - 1e-9]
 FS_THETAS = [PI / 2, 0.0, PI / 4, PI / 3, -PI / 2, PI / 8, 3 * PI / 4, 1.0]
 FS_PHIS = [0.0, PI, PI / 6, -PI / 6, PI / 2, PI / 3, -PI, 2.0]
 
@@ -1173,6 +1173,173 @@ def oracle_sycamore(r):
     return {"nontrivial": True, "fn": "known", "g": g, "n2q": len(two), "outcome": "ok"}
 
 
+# ----------------------------------------------------------------------------- named gates through every fast path
+
+
+NG_BASE = [1.0, -1.0, 0.5, -0.5, 1.5, -1.5, 2.0, 3.0, -2.0, -3.0, 0.0, 0.25, -0.25]
+NG_EXPS = sorted(set(NG_BASE) | {b + d for b in (1.0, -1.0, 2.0, 0.0, 0.5, -1.5, 3.0) for d in (1e-9, -1e-9)} | {b + d for b in (1.0, -1.0) for d in (1e-12, -1e-7)})
+NG_SHIFTS = [0.0, -0.5, 0.5, 0.25]
+NG_PS = [0.25, 0.0, 0.5, -0.25, 1.0, -1.0, 1.0 / 6, 0.25 + 1e-9, 0.25 - 1e-9]
+NG_FAMS = ["CZPow", "CNotPow", "SwapPow", "ISwapPow", "ZZPow", "XXPow", "YYPow", "PhISwap", "FSim", "Givens", "MS", "PhISwap1"]
+
+
+def _ng_gate(fam, e, sh, p, sym=False):
+    """(gate, resolver): the named gate; with sym its numeric parameters are sympy symbols resolved by ``resolver``."""
+    import sympy
+
+    res = {}
+    if sym:
+        res = {"t": e, "w": p}
+        e, p = sympy.Symbol("t"), sympy.Symbol("w")
+    eig = {"CZPow": cirq.CZPowGate, "CNotPow": cirq.CNotPowGate, "SwapPow": cirq.SwapPowGate, "ISwapPow": cirq.ISwapPowGate,
+           "ZZPow": cirq.ZZPowGate, "XXPow": cirq.XXPowGate, "YYPow": cirq.YYPowGate}
+    if fam in eig:
+        return eig[fam](exponent=e, global_shift=sh), res
+    if fam == "PhISwap":
+        return cirq.PhasedISwapPowGate(phase_exponent=p, exponent=e), res
+    if fam == "PhISwap1":
+        return cirq.PhasedISwapPowGate(phase_exponent=p if sym else p, exponent=1.0), res
+    if fam == "FSim":
+        return cirq.FSimGate(theta=e * (PI / 2), phi=p * PI), res
+    if fam == "Givens":
+        return cirq.PhasedISwapPowGate(phase_exponent=0.25, exponent=e * 0.5), res
+    if fam == "MS":
+        return cirq.XXPowGate(exponent=e * 0.5, global_shift=-0.5), res
+    raise KeyError(fam)
+
+
+@st.composite
+def _ng_case(draw):
+    return {"fam": draw(st.sampled_from(NG_FAMS)), "e": draw(st.one_of(st.sampled_from(NG_EXPS), st.sampled_from(NG_BASE), st.floats(-4, 4, allow_nan=False))),
+            "sh": draw(st.sampled_from(NG_SHIFTS)), "p": draw(st.one_of(st.sampled_from(NG_PS), st.floats(-1, 1, allow_nan=False))),
+            "inv": draw(st.booleans()), "partial": draw(st.booleans()), "sym": draw(st.booleans()), "rev": draw(st.booleans())}
+
+
+def _ng_grid(tier):
+    out = []
+    i = 0
+    for fam in NG_FAMS:
+        for e in NG_EXPS:
+            i += 1
+            out.append({"fam": fam, "e": e, "sh": NG_SHIFTS[i % 4], "p": NG_PS[i % len(NG_PS)], "inv": bool(i % 2), "partial": bool((i // 2) % 2),
+                        "sym": bool((i // 4) % 2), "rev": bool((i // 3) % 2)})
+    return out
+
+
+def _ng_input(r):
+    fam, e, sh, p = r["fam"], float(r.get("e", 1.0)), float(r.get("sh", 0.0)), float(r.get("p", 0.25))
+    if fam not in NG_FAMS or sh not in NG_SHIFTS or not abs(e) <= 4 or not abs(p) <= 1:
+        raise Reject("parameters outside the generated domain")
+    a, b = _qs(2)
+    q0, q1 = (b, a) if r.get("rev") else (a, b)
+    gate, _ = _ng_gate(fam, e, sh, p)
+    op = gate.on(q0, q1)
+    u = _product([op], [a, b])
+    return fam, e, sh, p, a, b, q0, q1, gate, op, u
+
+
+def oracle_named_gates(r):
+    """A named gate at a special exponent goes through every entry point that has a known-gate / special-case fast path;
+    whatever comes back (None / NotImplemented = 'no known decomposition' is fine) must rebuild the gate's own matrix."""
+    fam, e, sh, p, a, b, q0, q1, gate, op, u = _ng_input(r)
+    assert R.unitarity_defect(u) < 1e-9
+    tag = f"{fam}(e={e!r}, shift={sh}, p={p!r}{', reversed qubits' if r.get('rev') else ''})"
+    inv, partial = bool(r.get("inv")), bool(r.get("partial"))
+    lab = {"fam": fam, "nontrivial": True}
+
+    def two_only(what, ops, allowed, maxn=None):
+        _check_arity(what, ops)
+        two = _two_qubit_ops(ops)
+        if any(o.gate not in allowed for o in two):
+            raise Violation(what + f": two-qubit gates {sorted({str(o.gate) for o in two})}, documented only {[str(g) for g in allowed]}")
+        if maxn is not None and len(two) > maxn:
+            raise Violation(what + f": {len(two)} two-qubit gates (> {maxn})")
+        return len(two)
+
+    # A. known-gate dispatch of the Sycamore synthesis
+    res = cirq_google.known_2q_op_to_sycamore_operations(op)
+    lab["syc_known"] = res is not None
+    if res is not None:
+        ops = _ops_list(res)
+        what = f"known_2q_op_to_sycamore_operations({tag})"
+        _cmp(what, _product(ops, [a, b]), u, 1e-6, True)
+        two_only(what, ops, [cirq_google.SYC])
+    # B. matrix entry point of the Sycamore synthesis
+    what = f"two_qubit_matrix_to_sycamore_operations(unitary of {tag})"
+    ops = _ops_list(cirq_google.two_qubit_matrix_to_sycamore_operations(q0, q1, cirq.unitary(gate)))
+    _cmp(what, _product(ops, [a, b]), u, 1e-6, True)
+    two_only(what, ops, [cirq_google.SYC], 6)
+    # D. sqrt-iSWAP, E. CZ, F. MS matrix entry points
+    what = f"two_qubit_matrix_to_sqrt_iswap_operations(unitary of {tag}, use_sqrt_iswap_inv={inv})"
+    ops = list(cirq.two_qubit_matrix_to_sqrt_iswap_operations(q0, q1, cirq.unitary(gate), use_sqrt_iswap_inv=inv))
+    _cmp(what, _product(ops, [a, b]), u, 1e-7, True)
+    lab["n_sqisw"] = two_only(what, ops, [cirq.SQRT_ISWAP_INV if inv else cirq.SQRT_ISWAP], 3)
+    what = f"two_qubit_matrix_to_cz_operations(unitary of {tag}, allow_partial_czs={partial})"
+    ops = cirq.two_qubit_matrix_to_cz_operations(q0, q1, cirq.unitary(gate), partial)
+    _cmp(what, _product(ops, [a, b]), u, 1e-7, True)
+    _check_arity(what, ops)
+    two = _two_qubit_ops(ops)
+    if len(two) > 3 or any(not isinstance(o.gate, cirq.CZPowGate) or (not partial and o.gate != cirq.CZ) for o in two):
+        raise Violation(what + f": two-qubit gates {[str(o.gate) for o in two]}")
+    lab["n_cz"] = len(two)
+    what = f"two_qubit_matrix_to_ion_operations(unitary of {tag})"
+    ops = cirq.two_qubit_matrix_to_ion_operations(q0, q1, cirq.unitary(gate))
+    _cmp(what, _product(ops, [a, b]), u, 1e-7, True)
+    # G. objects with a unitary handed over directly
+    kd = cirq.kak_decomposition(gate)
+    _cmp(f"cirq.unitary(kak_decomposition({tag}))", cirq.unitary(kd), cirq.unitary(gate), 1e-7, False)
+    _in_region(f"kak_decomposition({tag})", kd.interaction_coefficients)
+    what = f"decompose_two_qubit_interaction_into_four_fsim_gates({tag} as operation)"
+    fs = cirq.FSimGate(PI / 2, 0.1)
+    c = cirq.decompose_two_qubit_interaction_into_four_fsim_gates(op, fsim_gate=fs)
+    ops = list(c.all_operations())
+    _cmp(what, _product(ops, [a, b]), u, 1e-7, False)
+    if two_only(what, ops, [fs]) != 4:
+        raise Violation(what + ": not exactly four FSim gates")
+    lab["e_kind"] = "table" if e in NG_EXPS else "continuous"
+    lab["neg"] = e < 0
+    lab["big"] = abs(e) > 1
+    return lab
+
+
+NGP_FAMS = ["CZPow", "SwapPow", "ISwapPow", "FSim", "ZZPow"]
+
+
+@st.composite
+def _ngp_case(draw):
+    r = draw(_ng_case())
+    r["fam"] = draw(st.sampled_from(NGP_FAMS))
+    return r
+
+
+def _ngp_grid(tier):
+    return [dict(r, fam=f) for f in NGP_FAMS[:4] for r in _ng_grid(tier) if r["fam"] == "CZPow"]
+
+
+def oracle_named_gates_param(r):
+    """parameterized_2q_op_to_sqrt_iswap_operations: the gate is handed over with symbolic parameters (documented use),
+    the returned operations are resolved at the special value and must rebuild the gate's matrix at that value."""
+    fam, e, sh, p, a, b, q0, q1, gate, op, u = _ng_input(r)
+    inv = bool(r.get("inv"))
+    g2, resolver = _ng_gate(fam, e, sh, p, sym=True)
+    res = cirq.parameterized_2q_op_to_sqrt_iswap_operations(g2.on(q0, q1), use_sqrt_iswap_inv=inv)
+    lab = {"fam": fam, "nontrivial": True, "neg": e < 0, "big": abs(e) > 1, "e_kind": "table" if e in NG_EXPS else "continuous"}
+    if res is None or res is NotImplemented:
+        if fam in NGP_FAMS[:4]:
+            raise Violation(f"parameterized_2q_op_to_sqrt_iswap_operations({fam}): no decomposition for a gate type documented as supported")
+        return dict(lab, outcome="not_implemented")
+    what = (f"parameterized_2q_op_to_sqrt_iswap_operations({fam} with symbols, use_sqrt_iswap_inv={inv}) resolved at "
+            f"e={e!r}, shift={sh}, p={p!r}")
+    ops = [cirq.resolve_parameters(o, cirq.ParamResolver(resolver)) for o in _ops_list(res)]
+    _cmp(what, _product(ops, [a, b]), u, 1e-7, True)
+    _check_arity(what, ops)
+    want = cirq.SQRT_ISWAP_INV if inv else cirq.SQRT_ISWAP
+    two = _two_qubit_ops(ops)
+    if any(o.gate != want for o in two):
+        raise Violation(what + f": two-qubit gates {sorted({str(o.gate) for o in two})}, documented only {want}")
+    return dict(lab, outcome="ok", n2q=len(two))
+
+
 # ----------------------------------------------------------------------------- gate tabulation (thorough only)
 
 
@@ -1211,12 +1378,20 @@ def oracle_tabulation(r):
 # ----------------------------------------------------------------------------- known-finding features (README rule 1)
 
 
+def _feature_matrix(sub, r):
+    """(U, canonical class) of the two-qubit matrix a case feeds to the KAK-based routines."""
+    if sub == "named_gates":
+        u = _ng_input(r)[-1]
+        return u, R.weyl_from_matrix(u)
+    u, info = G.build_2q(r["u"])
+    return u, info["v"]
+
+
 def _f_fsim4_face_threshold(sub, r):
     """Canonical x sits (to rounding) on pi/4 - 1e-9, kak_canonicalize_vector's own face threshold, with z != 0."""
-    if sub != "fsim4":
+    if sub not in ("fsim4", "named_gates"):
         return False
-    _, info = G.build_2q(r["u"])
-    v = info["v"]
+    _, v = _feature_matrix(sub, r)
     return abs((Q - v[0]) - 1e-9) < 2e-11 and abs(v[2]) > 1e-7
 
 
@@ -1231,20 +1406,21 @@ def _f_kak_rank_threshold(sub, r):
         atol = float(r.get("atol", 1e-8)) / 10
     elif sub == "fsim4":
         atol = 1e-8
+    elif sub == "named_gates":
+        atol = None  # entry points use 1e-8 and 1e-9 (sqrt-iSWAP: atol / 10)
     else:
         return False
-    u, _ = G.build_2q(r["u"])
+    u, _ = _feature_matrix(sub, r)
     mg = G.NAMED_2Q["MAGIC"]
     sv = np.linalg.svd(np.real(mg.conj().T @ u @ mg), compute_uv=False)
-    return bool(np.any((sv > 0.5 * atol) & (sv < 2 * atol)))
+    return any(bool(np.any((sv > 0.5 * t) & (sv < 2 * t))) for t in ((1e-8, 1e-9) if atol is None else (atol,)))
 
 
 def _f_fsim4_drops_small_z(sub, r):
     """(sin y cos z)^2 > 0.5 - 1e-12 (hard-coded branch) although y, z are not exactly (pi/4, 0)."""
-    if sub != "fsim4":
+    if sub not in ("fsim4", "named_gates"):
         return False
-    _, info = G.build_2q(r["u"])
-    v = info["v"]
+    _, v = _feature_matrix(sub, r)
     return (math.sin(v[1]) * math.cos(v[2])) ** 2 > 0.499999999999 and (abs(v[2]) > 3e-8 or abs(v[1] - Q) > 3e-8)
 
 
@@ -1257,6 +1433,12 @@ KNOWN_FEATURES = {
 # regression inputs of defects found by this check and repaired in /repo (fix: commits f29c081 632d107 92fe2d5 d845bb0
 # 633a791 d35532d 39ad951); always evaluated first
 REGRESSION = {
+    "named_gates_param": [
+        # C15_sqisw_param_cphase_pi (6025b96, 3d8e8e9): symbolic sqrt-iSWAP decomposition resolved at a full controlled phase
+        {"fam": "CZPow", "e": 1.0, "sh": 0.0, "p": 0.25, "inv": False, "partial": False, "sym": True, "rev": False},
+        {"fam": "SwapPow", "e": -1.0, "sh": 0.0, "p": 0.25, "inv": True, "partial": False, "sym": True, "rev": False},
+        {"fam": "FSim", "e": 0.0, "sh": 0.0, "p": -0.9999999999999999, "inv": False, "partial": False, "sym": False, "rev": False},
+    ],
     "kak_vector": [
         # C15_kak_vector_face_rtol
         {"u": {"k": "kak", "base": "face_x", "eps": 1e-07, "dir": [-1, 0, 0], "loc": [], "ph": 0.0}},
@@ -1328,7 +1510,11 @@ SUBCHECKS = [
              essential={"branch=lemma7.2": 0.1, "branch=lemma7.3": 0.03}),
     SubCheck("state_prep", _state_case(), oracle_state, quick=1500, thorough=40000, shards_quick=2, essential={"special": 0.5}),
     SubCheck("clifford", _cliff_case(), oracle_clifford, quick=600, thorough=20000, shards_quick=2),
-    SubCheck("sycamore", _syc_case(), oracle_sycamore, quick=1200, thorough=30000, shards_quick=4),
+    SubCheck("sycamore", _syc_case(), oracle_sycamore, quick=900, thorough=30000, shards_quick=3),
+    SubCheck("named_gates", _ng_case(), oracle_named_gates, quick=250, thorough=20000, shards_quick=4, enumerate=_ng_grid,
+             essential={"neg": 0.3, "big": 0.3, "syc_known": 0.2}),
+    SubCheck("named_gates_param", _ngp_case(), oracle_named_gates_param, quick=150, thorough=8000, shards_quick=2, enumerate=_ngp_grid,
+             essential={"neg": 0.3, "big": 0.3}),
     SubCheck("tabulation", _tab_case(), oracle_tabulation, quick=0, thorough=24, shards_quick=1, shards_thorough=8),
 ]
 for _s in SUBCHECKS:
